@@ -280,6 +280,7 @@ func (svc *service) publish(msg *message.PublishMessage, onComplete OnCompleteFu
 		return fmt.Errorf("(%s) Error sending %s message: %v", svc.cid(), msg.Name(), err)
 	}
 
+	verifAckWindow(svc.conn, "publish")
 	switch msg.QoS() {
 	case message.QosAtMostOnce:
 		if onComplete != nil {
@@ -375,6 +376,7 @@ func (svc *service) subscribe(msg *message.SubscribeMessage, onComplete OnComple
 		return err2
 	}
 
+	verifAckWindow(svc.conn, "subscribe")
 	return svc.sess.Suback.Wait(msg, onc)
 }
 
@@ -437,6 +439,7 @@ func (svc *service) unsubscribe(msg *message.UnsubscribeMessage, onComplete OnCo
 		return err2
 	}
 
+	verifAckWindow(svc.conn, "unsubscribe")
 	return svc.sess.Unsuback.Wait(msg, onc)
 }
 
@@ -448,6 +451,7 @@ func (svc *service) ping(onComplete OnCompleteFunc) error {
 		return fmt.Errorf("(%s) Error sending %s message: %v", svc.cid(), msg.Name(), err)
 	}
 
+	verifAckWindow(svc.conn, "ping")
 	return svc.sess.Pingack.Wait(msg, onComplete)
 }
 
